@@ -9,6 +9,11 @@ import Props.C03
 #print axioms SpyneModel.Props.C03.lexicographic_order_rejects_twelve_elements
 #print axioms SpyneModel.Props.C03.encode_is_documented
 #print axioms SpyneModel.Props.C03.roundtrip
+#print axioms SpyneModel.Props.C03.sub_names_at_every_depth
+#print axioms SpyneModel.Props.C03.documented_any_order_sub_names
+#print axioms SpyneModel.Props.C03.roundtrip_sub_names
+#print axioms SpyneModel.Props.C03.wsdl_only_when_asked
+#print axioms SpyneModel.Props.C03.pair_order_irrelevant_http
 #print axioms SpyneModel.Props.C03.s2cmi_index_order
 #print axioms SpyneModel.Props.C03.key_indexes
 #print axioms SpyneModel.Props.C03.percent_coding_lossless
